@@ -933,7 +933,10 @@ impl Engine {
 
     fn wake(st: &State, t: usize) {
         let p = &st.th[t].parker;
-        *p.flag.lock().unwrap() = true;
+        // (poison-tolerant like every other lock of the engine: may lets a coroutine finish an unwind on another thread
+        // than the one it started on, which leaves std's per-thread panic counter wrong on both; a guard dropped on
+        // such a thread while any panic is in flight poisons the mutex although nobody panicked holding it)
+        *p.flag.lock().unwrap_or_else(|e| e.into_inner()) = true;
         p.cv.notify_one();
     }
 
